@@ -541,7 +541,27 @@ def workload(ctx, repo):
         if i % 499 == 0:
             ctx.sample(case)
         run_case(ctx, repo, case)
-    # (b) seconds_since_unix_epoch of any point
+    # (b) seconds_since_unix_epoch of any point: first the years either side
+    # of the epoch (leap and common), at their ends and around the leap day,
+    # in offsets of both signs and every representation
+    if ctx.worker == 0:
+        for mode in R.MODES:
+            for y in range(1964, 1977):
+                y0 = R.days_before_year(mode, y)
+                L = R.year_len(mode, y)
+                for rd in (y0, y0 + 58, y0 + 59, y0 + L - 1):
+                    for off in ((0, 0), (0, -30), (-5, 0), (-12, 0),
+                                (0, 30), (5, 30), (14, 0)):
+                        rep = gen.REPS[(rd + off[0]) % 3]
+                        kw = gen.date_kwargs(mode, rep, rd)
+                        kw.update({"hour_of_day": (0, 12, 23)[rd % 3],
+                                   "minute_of_hour": 15,
+                                   "second_of_minute": 7})
+                        kw.update(gen.zone_kwargs(off))
+                        case = {"op": "to", "p": kw, "mode": mode}
+                        ctx.case = case
+                        ctx.ev("cases.around-the-epoch")
+                        run_case(ctx, repo, case)
     n = 3000 if ctx.tier == "quick" else 12000
     for i in range(n):
         y = rng.choice((1969, 1970, 1971, 2038, 1, 9999, 0, -1, 2000,
